@@ -95,3 +95,89 @@ func staleSuccessorLeave() (problem string, keyHolder uint64, owner uint64) {
 	}
 	return "", keyHolder, owner
 }
+
+// joinAfterPredecessorLeft is the minimal schedule behind a second data loss
+// found by C03 on an earlier tree: L (the predecessor of S) leaves gracefully and
+// hands its keys to S; right afterwards, before stabilization has replaced S's
+// predecessor pointer (still L), J joins between L and S. S delimits the range
+// it hands over by its stale predecessor, i.e. (L, J] instead of (P, J], so the
+// keys of L's former range stay on S although they now belong to J.
+func joinAfterPredecessorLeft() (problem string, keyHolder uint64, owner uint64) {
+	const (
+		P = uint64(1) << 44
+		L = uint64(2) << 44
+		J = uint64(5) << 43
+		S = uint64(3) << 44
+	)
+	// long maintenance intervals: nobody stabilizes or checks predecessors on its own during
+	// the few milliseconds between the leave and the join
+	r := newSimRing(ringsim.Config{Seed: 45, StabilizeInterval: time.Second, FixFingerInterval: time.Second, PredCheckInterval: time.Second})
+	defer r.net.Close()
+	if err := r.buildRing([]uint64{P, L, S}, func(i int) int { return 0 }); err != nil {
+		return "precondition: " + err.Error(), 0, 0
+	}
+	if _, c := r.settle(60, true, nil); c.Problem != "" {
+		return "precondition: " + c.Problem, 0, 0
+	}
+	r.fillLists(20)
+	var key []byte
+	for i := 0; i < 1<<16; i++ {
+		k := []byte(fmt.Sprintf("pred-left-%d", i))
+		if h := chord.Hash(k); chord.Between(P, h, L, true) {
+			key = k
+			break
+		}
+	}
+	if key == nil {
+		return "precondition: no key", 0, 0
+	}
+	ctx := context.Background()
+	if err := retryKV(func() error { return r.members[P].Node.Put(ctx, key, []byte("acked")) }); err != nil {
+		return "precondition: put: " + err.Error(), 0, 0
+	}
+	// Leave() also waits for the leaver's own background tasks to wake up and stop; the ring
+	// is done with the leave as soon as the successor's lock has been released
+	leaveDone := make(chan struct{})
+	go func() { r.members[L].Node.Leave(); close(leaveDone) }()
+	defer func() { <-leaveDone }()
+	sawLock := false
+	for i := 0; i < 100000; i++ {
+		ls, ss := r.members[L].Node.VerifState(), r.members[S].Node.VerifState()
+		if ss == chord.Transferring {
+			sawLock = true
+		}
+		if ls == chord.Left && ss == chord.Active && sawLock {
+			break
+		}
+		time.Sleep(50 * time.Microsecond)
+	}
+	if st := r.members[L].Node.VerifState(); st != chord.Left || !sawLock {
+		return "precondition: leave did not complete: " + st.String(), 0, 0
+	}
+	if pre := r.members[S].Node.VerifPredecessor(); pre == nil || pre.ID() != L {
+		return "precondition: successor already repaired its predecessor pointer", 0, 0
+	}
+	_, jerr := r.join(J, S)
+	if _, c := r.settle(80, false, nil, false); c.Problem != "" {
+		return "precondition: not converged after the schedule: " + c.Problem, 0, 0
+	}
+	live := r.live()
+	ids := liveIDs(live)
+	owner = ownerOf(ids, chord.Hash(key))
+	for _, m := range live {
+		ks, _ := m.KV.Inner().RangeKeys(ctx, 0, 0)
+		for _, k := range ks {
+			if string(k) == string(key) {
+				keyHolder = m.ID
+			}
+		}
+	}
+	for _, m := range live {
+		var got []byte
+		err := retryKV(func() (e error) { got, e = m.Node.Get(ctx, key); return })
+		if err != nil || string(got) != "acked" {
+			return fmt.Sprintf("Get(%q) via %d = %q, %v (join result %v, members %v, key held by %d, owner %d)", key, m.ID, got, err, jerr, ids, keyHolder, owner), keyHolder, owner
+		}
+	}
+	return "", keyHolder, owner
+}
